@@ -67,28 +67,30 @@ Proof.
   now rewrite Bool.eqb_reflx.
 Qed.
 
-Lemma pend_eqb_contracts : forall p q, pend_eqb p q = true -> map snd p = map snd q.
+Lemma pend_eqb_eq : forall p q, pend_eqb p q = true -> p = q.
 Proof.
   induction p as [|[b c] p IH]; intros [|[b' d] q] H; cbn in *; try discriminate; auto.
-  apply andb_prop in H as [Hc Hp]. apply ctr_eqb_eq in Hc. subst. f_equal. auto.
+  apply andb_prop in H as [H Hp]. apply andb_prop in H as [Hb Hc].
+  apply ctr_eqb_eq in Hc. apply Bool.eqb_prop in Hb. subst. f_equal. auto.
 Qed.
 
-(** ArrayConcat: the result's view is the concatenation of the operands' views.  When the lazy
-    branch is taken ([contract_eq] holds pairwise) the right elements are delivered under the left
-    operand's pending list, which has the same contracts ([map snd]) and possibly other labels. *)
+Lemma pend_eqb_contracts : forall p q, pend_eqb p q = true -> map snd p = map snd q.
+Proof. intros p q H. now rewrite (pend_eqb_eq p q H). Qed.
+
+(** ArrayConcat: the result's view is exactly the concatenation of the operands' views - every
+    element is delivered under the pending list of its *own* operand, labels included (the lazy
+    branch is only taken when the two lists are equal, polarity of the labels included). *)
 Lemma concat_tracked : forall es1 p1 es2 p2,
-  exists p2', map snd p2' = map snd p2 /\
-    view_arr (prim_array_concat es1 p1 es2 p2) = view_arr (VArr es1 p1) ++ view_arr (VArr es2 p2').
+  view_arr (prim_array_concat es1 p1 es2 p2) = view_arr (VArr es1 p1) ++ view_arr (VArr es2 p2).
 Proof.
   intros. unfold prim_array_concat.
   destruct (is_inline_empty es1 p1) eqn:E1.
-  { destruct es1, p1; try discriminate. exists p2. split; reflexivity. }
+  { destruct es1, p1; try discriminate. reflexivity. }
   destruct (is_inline_empty es2 p2) eqn:E2.
-  { destruct es2, p2; try discriminate. exists []. cbn [view_arr arr_elems map].
-    split; [reflexivity | now rewrite app_nil_r]. }
+  { destruct es2, p2; try discriminate. cbn [view_arr arr_elems map]. now rewrite app_nil_r. }
   destruct (pend_eqb p1 p2) eqn:E.
-  - exists p1. split; [now apply pend_eqb_contracts | ]. cbn [view_arr]. apply arr_elems_app.
-  - exists p2. split; [reflexivity|]. cbn [view_arr]. now rewrite arr_elems_nil_pend.
+  - apply pend_eqb_eq in E. subst. cbn [view_arr]. apply arr_elems_app.
+  - cbn [view_arr]. now rewrite arr_elems_nil_pend.
 Qed.
 
 (** The broken ArrayConcat does not satisfy it (witness in Refuted.v). *)
